@@ -80,6 +80,9 @@ func craftedInputs() [][]byte {
 		"4d00519051905a", "4301619101626051 90", // map / object referring to itself
 		"4305496e6e6572920001736090 0161", "4305496e6e65729201610173609001 61", // known class (Inner) defined with an EMPTY field name, then a well-formed Inner: the second must still decode
 		"4305496e6e657292016101736090 0161", "4305496e6e65729200006090 90", "4305496e6e6572910060 90",
+		// a map-typed field with interface{} values holding an untyped map that contains itself
+		"43084d70537472416e7991016d60 48 016b 48 0173 5192 5a 5a", "43084d70537472416e7991016d60 48 016b 48 0173 5191 5a 5a", "43084d70537472416e7991016d60 48 016b 5191 5a",
+		"48 016b 48 0173 5190 5a 5a", "48 016b 48 0173 5191 5a 5a", "4d00 016b 48 0173 5190 5a 5a",
 		// two values on one stream: an object whose []int32 field holds an EMPTY untyped list, then a bare reference to that list
 		"4307536c496e7433329101766078 5191", "4307536c496e7433329101766078 5190", "4305536c5374729101766078 5191 5191",
 		"4307536c496e743332910176607991 5191", "78 5190", "57 5a 5190 5190", "48 5a 5190",
@@ -160,9 +163,9 @@ func c14run(env *Env, res *Result, c Case, sub int, input []byte, tmName string,
 	callBudget := 4096 + 64*len(input)
 	base := append([]string{"typemap=" + tmName}, feats...)
 	tmLen := len(tm)
-	tmKeys := make(map[string]struct{}, len(tm))
-	for k := range tm {
-		tmKeys[k] = struct{}{}
+	tmKeys := make(map[string]reflect.Type, len(tm))
+	for k, t := range tm {
+		tmKeys[k] = t
 	}
 	for ei, entry := range c14entries {
 		res.Evals++
@@ -220,8 +223,15 @@ func c14run(env *Env, res *Result, c Case, sub int, input []byte, tmName string,
 		})
 		cpu := mon.CPUSeconds() - cpu0
 		res.Max("alloc_bytes_per_call", int64(alloc))
-		if len(tm) != tmLen {
-			viol("typemap-written", fmt.Sprintf("the caller's type map grew from %d to %d entries during the call (hostile input must not write to a map that other decoders share)", tmLen, len(tm)))
+		changed := len(tm) != tmLen
+		for k, t0 := range tmKeys {
+			if tm[k] != t0 {
+				changed = true
+				tm[k] = t0
+			}
+		}
+		if changed {
+			viol("typemap-written", fmt.Sprintf("the caller's type map was written to during the call (%d -> %d entries, or an entry replaced): hostile input must not write to a map that other decoders share", tmLen, len(tm)))
 			for k := range tm {
 				if _, ok := tmKeys[k]; !ok {
 					delete(tm, k)
@@ -245,7 +255,7 @@ func c14run(env *Env, res *Result, c Case, sub int, input []byte, tmName string,
 		if cpu > 20 {
 			viol("budget:cpu", fmt.Sprintf("%.1f CPU-seconds", cpu))
 		}
-		if pi != nil || bud != nil {
+		if pi != nil || bud != nil || cpu > 20 {
 			break // the same site would be reported by every entry point
 		}
 	}
